@@ -30,6 +30,11 @@ def run(ck):
     n = 0
     scope = [pr] + prog.by_base.get("Pistache::match_string", []) + prog.by_base.get("Pistache::match_raw", []) + prog.by_base.get("Pistache::match_double", []) + \
         prog.by_base.get("Pistache::match_literal", []) + prog.by_base.get("Pistache::match_until", [])
+    # ... and the constructors of whatever stream buffer parseRaw lays over the text (they are handed the same pointer and length)
+    for c_ in pr.events(("construct", "decl")):
+        cn_ = strip_tmpl(c_.get("cls") or c_.get("ctor") or "")
+        if "StreamBuf" in cn_:
+            scope += [g_ for g_ in prog.funcs.values() if g_.d.get("ctor") and strip_tmpl(g_.cls or "") == cn_ and g_.blocks and g_ not in scope]
     for f in scope:
         for e, sink, arg, bounded in lib.taint_flows(f):
             n += 1
